@@ -27,7 +27,7 @@ def r1(cx):
     cp.check_obligation(cx, rows, "a latest hard delete is kept unless the output is the bottom level", lambda t: t["is_latest"] and t["hard_delete"] and not t["bottom"], True,
                         "tombstone-dropped-above-bottom", "compaction drops the newest tombstone although deeper levels may still hold older versions of the key: the deleted key shows an old value again", w)
     cp.check_obligation(cx, rows, "a tombstone that an open snapshot reads (and that is not superseded in its boundary) is kept",
-                        lambda t: t["hard_delete"] and not t["latest_del_bottom"] and t["cur_vis"] == "Bounded" and not cp.superseded(t) and (not t["is_latest"] or not t["bottom"]), True,
+                        lambda t: t["hard_delete"] and not t["latest_del_bottom"] and t["cur_vis"] == "Bounded" and not cp.unneeded_by_snapshots(t) and (not t["is_latest"] or not t["bottom"]), True,
                         "snapshot-tombstone-dropped", "compaction drops a tombstone that is the version an open snapshot reads: that reader falls through to an older value", w)
     if info.get("drop_all_consults_oldest_snapshot"):
         # the drop-all flag is only set when the oldest open snapshot sees the delete; otherwise the bottom-level tombstone
